@@ -5,10 +5,11 @@ From Coq Require Import Lia ZifyBool ZifyNat ZifyN.
 Local Open Scope list_scope.
 Local Open Scope nat_scope.
 
-(** a byte at which every unquoted lexeme ends and which is not a continuation byte *)
-Definition neutral (x : N) : Prop := x = 59%N \/ x = 10%N.
+(** a byte at which every unquoted lexeme ends and which is not a continuation byte: the
+    semicolon and the ASCII white space (newline, space, tab, carriage return) *)
+Definition neutral (x : N) : Prop := x = 59%N \/ x = 10%N \/ x = 32%N \/ x = 9%N \/ x = 13%N.
 
-Ltac neutral_cases Hx := destruct Hx as [-> | ->].
+Ltac neutral_cases Hx := destruct Hx as [-> | [-> | [-> | [-> | ->]]]].
 
 Lemma take_while_cut p x r b : p x = false -> take_while p (r ++ x :: b) = take_while p r.
 Proof. intros Hp. induction r as [|c r IH]; cbn [app take_while]; [rewrite Hp; reflexivity|]. destruct (p c); [f_equal; exact IH|reflexivity]. Qed.
@@ -176,7 +177,7 @@ Proof. destruct r; discriminate. Qed.
 Lemma string_body_nl q b : forall f esc r, length (r ++ 10%N :: b) < f ->
   string_body f q esc (r ++ 10%N :: b) = string_body f q esc (r ++ [10%N]).
 Proof.
-  assert (Hn : neutral 10) by (right; reflexivity).
+  assert (Hn : neutral 10) by (right; left; reflexivity).
   induction f as [|f IH]; intros esc r Hf; [lia|].
   rewrite !string_body_step by apply app_cons_not_nil.
   destruct r as [|c0 r0].
@@ -236,7 +237,7 @@ Qed.
 
 Theorem lex1_nl a b : lex1 (a ++ 10%N :: b) = lex1 (a ++ [10%N]).
 Proof.
-  assert (Hn : neutral 10) by (right; reflexivity).
+  assert (Hn : neutral 10) by (right; left; reflexivity).
   destruct a as [|c0 r0]; [reflexivity|].
   assert (Ha : c0 :: r0 <> []) by congruence.
   pose proof (lex_ident_cut 10 (c0 :: r0) b Hn Ha) as Hi1. pose proof (lex_ident_cut 10 (c0 :: r0) [] Hn Ha) as Hi2.
